@@ -806,23 +806,25 @@ fn main() {
         );
         // magnitudes at which a single p-th power is still finite (or still non-zero) while the SUM of two or three of them is not:
         // (MAX / n)^(1/p) .. MAX^(1/p) for the exponents p = 1.5, 3, 8 used by the value check, and the mirror image at the underflow end
-        let xp = [0.0, 1.0, 5e102, -5e102, 3.2e38, 3e205, 1e-108, -1e-41, 1e-216, -4.6e102];
+        // (3.9e-41, 1e-107, -2e-107, 1e-210: the p-th power is SUBNORMAL - neither zero nor accurate - for p = 8, 3, 3, 1.5)
+        let xp = [0.0, 1.0, 5e102, -5e102, 3.2e38, 3e205, 1e-108, -1e-41, 1e-216, -4.6e102, 3.9e-41, 1e-107, -2e-107, 1e-210];
+        const NP: u64 = 14;
         let pmax = ctx.pick(3u32, 4u32);
-        let totalp: u64 = (1..=pmax).map(|k| 10u64.pow(k)).sum();
+        let totalp: u64 = (1..=pmax).map(|k| NP.pow(k)).sum();
         ctx.lattice(
-            "Vector<f64> norms where one p-th power fits but the sum of the powers does not: all vectors of length 1..3 (thorough 1..4) over {0,1,+-5e102,-4.6e102,3.2e38,3e205,1e-108,-1e-41,1e-216}",
+            "Vector<f64> norms where one p-th power fits but the sum of the powers does not: all vectors of length 1..3 (thorough 1..4) over {0,1,+-5e102,-4.6e102,3.2e38,3e205,1e-108,-1e-41,1e-216,3.9e-41,1e-107,-2e-107,1e-210}",
             totalp,
             |idx| format!("{}", idx),
             |idx, acc| {
                 let mut i = idx;
                 let mut len = 1u32;
-                while i >= 10u64.pow(len) {
-                    i -= 10u64.pow(len);
+                while i >= NP.pow(len) {
+                    i -= NP.pow(len);
                     len += 1;
                 }
                 let x: Vec<f64> = (0..len).map(|_| {
-                    let v = xp[(i % 10) as usize];
-                    i /= 10;
+                    let v = xp[(i % NP) as usize];
+                    i /= NP;
                     v
                 }).collect();
                 if x.iter().filter(|t| t.abs() > 1e100).count() >= 2 {
